@@ -45,6 +45,8 @@ def gen_cb(rng: Any, ids: list[int], depth: int, allow_service: bool, p_raise: f
     if route == "ctxteardown":
         kind = "async"
     cb: dict[str, Any] = {"id": cid, "route": route, "kind": kind, "pass_exception": False, "steps": [], "raises": None, "children": [], "form": form}
+    if route in ("direct", "resource") and rng.random() < 0.2:
+        cb["from_child"] = True
     if route == "resource":
         cb["ntypes"] = rng.choice([0, 1, 1, 2, 3])  # 0: type of the value; >1: one resource published under several types
     if route in ("direct", "shortcut"):
@@ -159,6 +161,7 @@ class Run:
         self.other_ctx_calls = 0
         self.gen_shapes: dict[str, int] = {}
         self.setup_registrations = 0
+        self.from_child_registrations = 0
 
     # ---- probes -------------------------------------------------------------------------
 
@@ -321,6 +324,15 @@ class Run:
 
         route = cb["route"]
         if route in ("direct", "shortcut", "resource"):
+            if cb.get("from_child") and route != "shortcut":
+                # registered on the owner *explicitly* while a short-lived child context of it is the current one (a request
+                # handler adding something to the application context): the callback belongs to the owner all the same
+                from asphalt.core import Context
+
+                async with Context():
+                    self._register_simple(cb, route, during_teardown)
+                self.from_child_registrations += 1
+                return
             self._register_simple(cb, route, during_teardown)
             return
         run = self
@@ -738,6 +750,8 @@ def features(run: Run) -> dict[str, int]:
         inc("ctxteardown_called_with_another_context", run.other_ctx_calls)
     for shape, n in run.gen_shapes.items():
         inc(f"ctxteardown_generator_{shape}", n)
+    if run.from_child_registrations:
+        inc("callbacks_registered_on_the_owner_while_a_child_context_was_current", run.from_child_registrations)
     if run.setup_registrations:
         inc("callbacks_registered_by_a_ctxteardown_setup_part", run.setup_registrations)
     if len(raised_ids) >= 2:
